@@ -477,7 +477,7 @@ func (ex *Exec) call(in *ssa.Call, cc *ssa.CallCommon, r Term) {
 				t, err := env.Goal(ca.C.E)
 				txt := ca.C.Text
 				if err != nil {
-					if !strings.Contains(err.Error(), "unknown identifier") {
+					if !staleRef(err) {
 						unsup("call %d %s assert: %v", ca.Ordinal, ca.Callee, err)
 					}
 					// it speaks about a call or local that does not exist (any more)
@@ -763,7 +763,7 @@ func (ex *Exec) applyContract(fc *FuncContract, fn *ssa.Function, cc *ssa.CallCo
 		}
 		t, err := post.Bool(en.E)
 		if err != nil {
-			if strings.Contains(err.Error(), "unknown identifier") {
+			if staleRef(err) {
 				continue // mentions a local of the callee: internal clause
 			}
 			unsup("contract %s ensures: %v", calleeDisp, err)
@@ -842,6 +842,13 @@ func (ex *Exec) fieldRegion(pkg *types.Package, m string) map[string][]int {
 	for i := 0; i < st.NumFields(); i++ {
 		if st.Field(i).Name() == arg[k+1:] {
 			return ex.fieldRegionOf(t, i)
+		}
+	}
+	if alt := fieldAlias(t, arg[k+1:]); alt != "" {
+		for i := 0; i < st.NumFields(); i++ {
+			if st.Field(i).Name() == alt {
+				return ex.fieldRegionOf(t, i)
+			}
 		}
 	}
 	unsup("%s: no such field", m)
